@@ -19,6 +19,7 @@ RULE = (
     "the same over a real StdioClient with the answers arriving behind a burst of 0..400 notifications in 1..7 pipe reads; n<=3 enumerated exhaustively (all answer permutations x 5 instants per answer x 3 notification patterns), n=4 drawn by Hypothesis; "
     "a recording proxy logs which caller task dequeued which item; non-trivial = answer order differs from request order or a notification sits between two answers; "
     "distinct = distinct full case"
+    "; round 8: ids chosen by the library next to caller-named ids in the style seen on the wire (the successors of the last generated id); server requests reusing a peer's outstanding id"
     "; added in rounds 6-7 of the seeded changes: caller-named ids differing only in JSON type; answers packed into batch arrays (stdio); an id reused after a timeout while a peer is ahead in the queue"
 )
 ASSUMPTIONS = [
@@ -177,6 +178,22 @@ def check(case: Dict[str, Any]) -> Outcome:
     n = case["n"]
     # each caller's request id: by default c0, c1 ...; a case may name them (ids that differ only in JSON type)
     ids: List[Any] = list(case.get("ids") or [f"c{i}" for i in range(n)])
+    # an id may be None (the library chooses it) or "$succ:k": the caller names ids in the style it has seen on the wire - the k-th
+    # successor of the id the library generated for an earlier call when that was a number, else that (completed) id itself
+    auto = [i for i in range(n) if ids[i] is None]
+    if any(isinstance(x, str) and x.startswith("$succ:") for x in ids):
+        async def probe(r, w):
+            return await send_message(r, w, "probe", {}, timeout=5)
+
+        pr = drive(probe, [(0.1, {"jsonrpc": "2.0", "id": "$ID", "result": {}})], wait_first_write=True, max_vtime=30)
+        seen = pr.req_id
+        for i in range(n):
+            if isinstance(ids[i], str) and ids[i].startswith("$succ:"):
+                k_ = int(ids[i][6:])
+                ids[i] = str(int(seen) + k_) if isinstance(seen, str) and seen.isdigit() else (seen + k_ if type(seen) is int else f"{seen}")
+        if len({_json.dumps(x) for x in ids if x is not None}) < len([x for x in ids if x is not None]):
+            ids = [x if x is None else f"{x}#{i}" for i, x in enumerate(ids)]  # (keep the named ones distinct)
+    answer_ids = [f"$IDOF:m/{i}" if ids[i] is None else ids[i] for i in range(n)]
     idkey = lambda x: _json.dumps(x)  # noqa: E731
     timeouts = [t / 100.0 for t in case["timeouts"]]
     starts = [t / 100.0 for t in case.get("starts", [0] * n)]  # callers may join later (staggered lifetimes)
@@ -193,15 +210,19 @@ def check(case: Dict[str, Any]) -> Outcome:
         form = {"$form": "typed"} if i in typed else {}
         ph = phases[k] if k < len(phases) else 0  # position among the events of that instant (see drive)
         if i in err_for:
-            schedule.append((t / 100.0, {"jsonrpc": "2.0", "id": ids[i], "error": {"code": -32000 - i, "message": f"for c{i}"}, **form}, ph))
+            schedule.append((t / 100.0, {"jsonrpc": "2.0", "id": answer_ids[i], "error": {"code": -32000 - i, "message": f"for c{i}"}, **form}, ph))
         elif str(i) in falsy:
-            schedule.append((t / 100.0, {"jsonrpc": "2.0", "id": ids[i], "result": FALSY[falsy[str(i)] % len(FALSY)], **form}, ph))
+            schedule.append((t / 100.0, {"jsonrpc": "2.0", "id": answer_ids[i], "result": FALSY[falsy[str(i)] % len(FALSY)], **form}, ph))
         else:
-            schedule.append((t / 100.0, {"jsonrpc": "2.0", "id": ids[i], "result": {"for": f"c{i}", "k": k}, **form}, ph))
+            schedule.append((t / 100.0, {"jsonrpc": "2.0", "id": answer_ids[i], "result": {"for": f"c{i}", "k": k}, **form}, ph))
         seq.append((t / 100.0, k, "a"))
     for j, t in enumerate(notifs):
         schedule.append((t / 100.0, {"jsonrpc": "2.0", "method": "notifications/message", "params": {"level": "info", "data": j}}))
         seq.append((t / 100.0, 100 + j, "n"))
+
+    for j, (t, i) in enumerate(case.get("srvreq", [])):
+        # the server's own request (roots/list, sampling) may bear an id some caller is waiting on: it is nobody's response
+        schedule.append((t / 100.0, {"jsonrpc": "2.0", "id": answer_ids[i], "method": "roots/list" if j % 2 == 0 else "sampling/createMessage", "params": {"for": f"c{i}"}}))
 
     results: Dict[int, Tuple[str, Any, float]] = {}
 
@@ -239,6 +260,9 @@ def check(case: Dict[str, Any]) -> Outcome:
         await asyncio.gather(*tasks, return_exceptions=True)
 
     res = drive(call, schedule, wait_first_write=True, max_vtime=max(starts) + max(timeouts) + 20)
+    for i in auto:
+        mine = [w_["id"] for _, w_ in res.written if isinstance(w_, dict) and w_.get("method") == f"m/{i}" and "id" in w_]
+        ids[i] = mine[0] if mine else f"<caller {i} wrote nothing>"
 
     first_answer_for: Dict[int, Tuple[float, int]] = {}
     for k, (t, i) in enumerate(answers):
@@ -252,7 +276,7 @@ def check(case: Dict[str, Any]) -> Outcome:
     if len(ts) >= 2:
         between = any(ts[0] <= x <= ts[-1] for x in notifs)
     out.nontrivial = out_of_order or between
-    out.classes = (f"n:{n}", "out-of-order" if out_of_order else "in-order", "notif-between" if between else "no-notif-between") + (("staggered-starts",) if any(starts) else ()) + (("a-caller-cancelled",) if cancels else ()) + (("ids-differ-only-in-json-type",) if len({str(x) for x in ids}) < len(ids) else ()) + (("named-ids",) if case.get("ids") else ())
+    out.classes = (f"n:{n}", "out-of-order" if out_of_order else "in-order", "notif-between" if between else "no-notif-between") + (("staggered-starts",) if any(starts) else ()) + (("a-caller-cancelled",) if cancels else ()) + (("ids-differ-only-in-json-type",) if len({str(x) for x in ids}) < len(ids) else ()) + (("named-ids",) if case.get("ids") else ()) + (("library-chosen-and-caller-named-ids-mixed",) if auto else ()) + (("server-request-reusing-an-outstanding-id",) if case.get("srvreq") else ())
 
     # who dequeued what
     dequeued_by: Dict[str, List[str]] = {}
@@ -414,6 +438,27 @@ def job_exhaustive(col: Collector, seed: int, tier: str, shard: int, nshards: in
                         continue
                     case = {"n": n_, "timeouts": [200] * n_, "answers": [[inst[k], perm[k]] for k in range(n_)], "notifs": [5] if i % 2 else [], "ids": idset, "typed": typed}
                     col.record(case, check(case))
+    # ids chosen by the library next to ids named by callers in the style seen on the wire (successors of the last generated one)
+    for idset in ([None, "$succ:1"], ["$succ:1", None], [None, "$succ:2", None], ["$succ:2", None, None], [None, None, "$succ:3"], ["$succ:1", "$succ:2", None], [None, "$succ:0"], [None, None]):
+        n_ = len(idset)
+        for perm in itertools.permutations(range(n_)):
+            for inst in ((10, 20, 30), (10, 10, 10), (48, 52, 70)):
+                i += 1
+                if i % nshards != shard:
+                    continue
+                case = {"n": n_, "timeouts": [200] * n_, "answers": [[inst[k], perm[k]] for k in range(n_)], "notifs": [5] if i % 2 else [], "ids": idset}
+                col.record(case, check(case))
+    # a server request bearing the id of an outstanding call, before / between / after the answers
+    for n_ in (2, 3):
+        for perm in itertools.permutations(range(n_)):
+            for inst in ((10, 20, 30), (48, 52, 70), (60, 60, 60)):
+                for who in range(n_):
+                    for tq in (5, 15, 25, 50, 55):
+                        i += 1
+                        if i % nshards != shard:
+                            continue
+                        case = {"n": n_, "timeouts": [200] * n_, "answers": [[inst[k], perm[k]] for k in range(n_)], "notifs": [], "srvreq": [[tq, who]] + ([[tq, (who + 1) % n_]] if i % 3 == 0 else [])}
+                        col.record(case, check(case))
     # staggered lifetimes: caller 2 joins at t=0.30 after an earlier caller may have completed
     for perm in itertools.permutations(range(3)):
         for inst in itertools.product([10, 20, 40, 60, 90], repeat=3):
@@ -454,6 +499,10 @@ def cases(draw):
     if draw(st.integers(0, 3)) == 0:
         # the callers name their ids themselves: integers and strings, some differing only in JSON type, some falsy
         case["ids"] = list(draw(st.permutations([7, "7", "0", "c1", 1, "1", -1, "-1"])))[:n]
+    elif draw(st.integers(0, 5)) == 0:
+        case["ids"] = [draw(st.sampled_from([None, None, "$succ:1", "$succ:2", "$succ:3"])) for _ in range(n)]
+    if draw(st.integers(0, 4)) == 0:
+        case["srvreq"] = [[draw(st.integers(1, 120)), draw(st.integers(0, n - 1))] for _ in range(draw(st.integers(1, 3)))]
     if draw(st.booleans()):
         starts = [0] + [draw(st.sampled_from([0, 0, 15, 30, 55, 80])) for _ in range(n - 1)]
         case["starts"] = starts
